@@ -10,11 +10,11 @@ Proof. exact tree_all_impl. Qed.
 Print Assumptions node_implication_lifts_to_trees.
 
 (* Acceptance implies specification validity: for every array tree (any nesting) over the covered
-   types — Null, Boolean, all fixed-width primitives, FixedSizeBinary, (Large)Binary, (Large)List,
+   types — Null, Boolean, all fixed-width primitives, FixedSizeBinary, (Large)Binary, (Large)List, (Large)ListView,
    FixedSizeList (nullable child, or offset 0), Struct (offset 0), Dictionary, RunEndEncoded — with
    physically realisable buffers, if the transcription of ArrayData::validate_full accepts then the
    independent validator written from the format specification accepts.
-   Not covered by this theorem (correspondence run only): Utf8 content, views, list-views, unions
+   Not covered by this theorem (correspondence run only): Utf8 content, views, unions
    (type ids are not validated by arrow-rs: known finding F5), Struct / non-nullable FixedSizeList at a
    non-zero offset (validation ignores the offset: known finding F4). *)
 Theorem accept_implies_valid : forall a,
